@@ -1589,3 +1589,5 @@ end Agd.Refresh
 #print axioms Agd.Tie.TrC13.stale_cache_goes_to_url
 #print axioms Agd.Tie.TrC13.fresh_cache_never_downloads
 #print axioms Agd.Tie.TrC13.cache_error_stops_refresh
+#print axioms Agd.Tie.TrC13.fromFile_tr
+#print axioms Agd.Tie.TrC13.url_consulted_iff_model_cache_miss
